@@ -104,7 +104,7 @@ class Profiles:
         'number': r'{num}',
         'string': r'{string1}|{string2}',
         'string1': r'"(\\\"|[^\"])*"',
-        'uri': r'url\({w}({string}|(\\\)|[^\)])+){w}\)',
+        'uri': r'url\({w}({string}|(\\\)|[^\)])*){w}\)',
         'string2': r"'(\\\'|[^\'])*'",
         'nl': r'\n|\r\n|\r|\f',
         'w': r'\s*',
